@@ -5,6 +5,7 @@ import (
 	"errors"
 	"fmt"
 	"io"
+	"strings"
 	"testing"
 	"time"
 
@@ -135,6 +136,104 @@ func c01RealEarly(c *ev.Collector) {
 			c.Outcome("violation")
 		} else {
 			c.Outcome("ok")
+		}
+	}
+}
+
+// c01Lockstep: a bidi conversation in lockstep - the client sends message i
+// and waits for the handler's answer to it before it sends message i+1; the
+// handler answers every message as soon as it has received it.  Every sequence
+// over {zero, small, pool-seed-sized} up to length 3 (x compression settings x
+// codecs x protocols x request windows): each message, zero-valued ones
+// included, must be delivered when Send has returned, or the conversation
+// stalls (a stall is decided by bubble quiescence).
+func c01Lockstep(t *testing.T, c *ev.Collector) {
+	seqs := seqsUpTo([]string{"z", "a", "p"}, 3)
+	idx := 0
+	for _, p := range AllProtos {
+		for _, js := range []bool{false, true} {
+			for _, comp := range []Comp{CompDefault, CompNone, CompSendGzip, CompSendMin} {
+				for _, mode := range []memhttp.ReqMode{memhttp.ReqEager, memhttp.ReqLazy} {
+					idx++
+					if !ev.Mine(idx) {
+						continue
+					}
+					cfg := Cfg{Proto: p, JSON: js, Comp: comp, Kind: KBidi, HTTP: 2, ReqMode: mode}
+					Bubble(t, func() {
+						h := NewHandler(KBidi, func(ctx context.Context, s HStream) error {
+							for {
+								m, err := s.Receive()
+								if err != nil {
+									if errors.Is(err, io.EOF) {
+										return nil
+									}
+									return err
+								}
+								if err := s.Send(&BV{Value: cloneBytes(m.Value)}); err != nil {
+									return err
+								}
+							}
+						}, cfg.HandlerOptions()...)
+						tr := &memhttp.Transport{Handler: h, Proto: 2, ReqMode: mode, SyncCloseReq: true}
+						cl := NewClient(tr, cfg)
+						for _, sq := range seqs {
+							if len(sq) == 0 {
+								continue
+							}
+							key := cfg.String() + "|lockstep|" + strings.Join(sq, ",")
+							c.Case(key, true)
+							want := payloads(sq)
+							var got [][]byte
+							var callErr error
+							stalledAt := -1
+							g := Guarded(func() {
+								stream := cl.CallBidiStream(context.Background())
+								for i, m := range want {
+									stalledAt = i
+									if err := stream.Send(&BV{Value: m}); err != nil {
+										callErr = err
+										break
+									}
+									r, err := stream.Receive()
+									if err != nil {
+										callErr = err
+										break
+									}
+									got = append(got, cloneBytes(r.Value))
+								}
+								stalledAt = -1
+								_ = stream.CloseRequest()
+								if callErr == nil {
+									if _, err := stream.Receive(); !errors.Is(err, io.EOF) {
+										callErr = fmt.Errorf("end of stream: %v", err)
+									}
+								}
+								_ = stream.CloseResponse()
+							}, tr)
+							c.AddTransitions(int64(2*len(sq) + 3))
+							c.AddStates(int64(2*len(sq) + 3))
+							c.AddTraces(1)
+							tags := append(cfg.Tags(), "lockstep")
+							tags = append(tags, seqTags(sq, "req")...)
+							switch {
+							case g.Hung || g.Panicked:
+								c.Violation("TestC01", "handler-recv-seq", "stalled", tags, key, "%s: the conversation stalled at message %d (Send had returned, the answer never came): hung=%v panic=%v", key, stalledAt+1, g.Hung, g.Panic)
+								c.Outcome("violation")
+								BailIfStuck(c, g)
+								return
+							case callErr != nil:
+								c.Violation("TestC01", "client-clean-end", "error", tags, key, "%s: %v", key, callErr)
+								c.Outcome("violation")
+							case !equalMsgs(got, want):
+								c.Violation("TestC01", "client-recv-seq", "mismatch", tags, key, "%s: echoed %s, sent %s", key, shortMsgs(got), shortMsgs(want))
+								c.Outcome("violation")
+							default:
+								c.Outcome("ok")
+							}
+						}
+					})
+				}
+			}
 		}
 	}
 }
